@@ -165,7 +165,14 @@ def WFT(t):
 
 
 def EXTENT(t):
+    """Ghost: the extent of a composite.  Sealed composites: the longest representation; delimited: the declared one.
+    (Formula for an object under construction, uninterpreted ghost of the reference - defined by the class invariant -
+    for an abstract object.)"""
     if smt():
+        if t.fields is not None and t.cls.name in ("StructureType", "UnionType"):
+            return SMAX(L(t))
+        if t.fields is not None and t.cls.name == "DelimitedType":
+            return st._i(t._extent)
         return speclib.CTX.engine.uf("ghost!extent", RefSort, z3.IntSort())(t.ref)
     return t.extent
 
@@ -430,10 +437,11 @@ class _CompositeInitAssumed:
 
 
 def _seq_same_refs(a, b):
+    """`a` is an element-wise copy of `b` (lists are modelled as total index functions plus a length; a copy shares both)"""
     if smt():
-        if isinstance(b, SymSeq):
-            return AND(a.length == b.length, FORALL_IDX(a, lambda i, x: x.ref == z3.Select(b.arr, i)))
-        return True
+        if isinstance(b, SymSeq) and isinstance(a, SymSeq):
+            return AND(a.length == b.length, a.arr == b.arr)
+        raise speclib.V.EngineLimit("attributes given as a concrete list")
     return list(a) == list(b)
 
 
